@@ -63,6 +63,9 @@ NameOf(n) ==
     [] n = "public" -> <<"p","u","b","l","i","c">>
     [] n = "immutable" -> <<"i","m","m","u","t","a","b","l","e">>
     [] n = "private" -> <<"p","r","i","v","a","t","e">>
+    [] n = "s-maxage" -> <<"s","-","m","a","x","a","g","e">>
+    [] n = "proxy-revalidate" -> <<"p","r","o","x","y","-","r","e","v","a","l","i","d","a","t","e">>
+    [] n = "no-transform" -> <<"n","o","-","t","r","a","n","s","f","o","r","m">>
 ArgOf(a) ==
   CASE a = "" -> <<>>
     [] a = "0" -> <<"0">>
@@ -97,6 +100,14 @@ DirLists ==
      [kind |-> "resp", dirs |-> <<D("public", ""), D("max-age", "5"), D("must-revalidate", ""), D("stale-if-error", "30")>>,
       abs |-> RespAbs(5, -1, 30, <<"public", "must-revalidate">>, 0)],
      [kind |-> "resp", dirs |-> <<D("immutable", ""), D("max-age", "5")>>, abs |-> RespAbs(5, -1, -1, <<"immutable">>, 0)],
+     \* directives that speak to shared caches or transforming intermediaries only (RFC 9111 5.2.2.6-8, 5.2.2.10):
+     \* the abstract meaning - what a private cache has to act on - is that of the list without them
+     [kind |-> "resp", dirs |-> <<D("max-age", "5"), D("s-maxage", "30")>>, abs |-> RespAbs(5, -1, -1, <<>>, 0)],
+     [kind |-> "resp", dirs |-> <<D("s-maxage", "0"), D("max-age", "30")>>, abs |-> RespAbs(30, -1, -1, <<>>, 0)],
+     [kind |-> "resp", dirs |-> <<D("private", ""), D("proxy-revalidate", ""), D("max-age", "5"), D("stale-if-error", "30")>>,
+      abs |-> RespAbs(5, -1, 30, <<>>, 0)],
+     [kind |-> "resp", dirs |-> <<D("no-transform", ""), D("s-maxage", "5"), D("max-age", "30"), D("private", "")>>, abs |-> RespAbs(30, -1, -1, <<>>, 0)],
+     [kind |-> "req", dirs |-> <<D("no-transform", ""), D("max-stale", "5")>>, abs |-> ReqAbs(-1, 5, -1, -1, <<>>)],
      [kind |-> "req", dirs |-> <<D("no-cache", "")>>, abs |-> ReqAbs(-1, -1, -1, -1, <<"no-cache">>)],
      [kind |-> "req", dirs |-> <<D("no-store", "")>>, abs |-> ReqAbs(-1, -1, -1, -1, <<"no-store">>)],
      [kind |-> "req", dirs |-> <<D("only-if-cached", "")>>, abs |-> ReqAbs(-1, -1, -1, -1, <<"only-if-cached">>)],
@@ -228,7 +239,8 @@ CodeParse(lines) ==
 (* what the text has to mean                                               *)
 (***************************************************************************)
 Known == {NameOf(n) : n \in {"max-age", "no-cache", "no-store", "must-revalidate", "only-if-cached", "max-stale", "min-fresh",
-                             "stale-while-revalidate", "stale-if-error", "public", "immutable", "private"}}
+                             "stale-while-revalidate", "stale-if-error", "public", "immutable", "private",
+                             "s-maxage", "proxy-revalidate"}}
 \* a directive given twice: the occurrence without argument decides (that only arises for no-cache here)
 MeaningOf(dirs) == [k \in {NameOf(dirs[i].n) : i \in 1..Len(dirs)} |->
                       IF \E i \in 1..Len(dirs) : NameOf(dirs[i].n) = k /\ dirs[i].a = "" THEN <<>>
@@ -266,7 +278,7 @@ Spec == Init /\ [][Next]_vars
 
 \* the parser recovers exactly the meaning from every rewrite: the known directives with their arguments, nothing else known
 ParseExact == st = "text" =>
-  Restrict(CodeParse(Render(DirLists[dl].dirs, rc)), Known) = MeaningOf(DirLists[dl].dirs)
+  Restrict(CodeParse(Render(DirLists[dl].dirs, rc)), Known) = Restrict(MeaningOf(DirLists[dl].dirs), Known)
 \* the canonical text parses to the meaning too (sanity of Render / MeaningOf)
-CanonicalOK == \A i \in 1..Len(DirLists) : Restrict(CodeParse(Render(DirLists[i].dirs, Canonical)), Known) = MeaningOf(DirLists[i].dirs)
+CanonicalOK == \A i \in 1..Len(DirLists) : Restrict(CodeParse(Render(DirLists[i].dirs, Canonical)), Known) = Restrict(MeaningOf(DirLists[i].dirs), Known)
 =============================================================================
